@@ -275,7 +275,7 @@ def parse_run(line, N):
     rs = sorted(N.rev[int(x)] for x in r[1:].strip().split(",") if x)
     g = g[2:].strip()
     guards = {"core": g[0] == "1", "wf": g[1] == "1", "noalias": g[2] == "1", "rbw": g[3] == "1",
-              "core2": len(g) > 4 and g[4] == "1"}
+              "core2": len(g) > 4 and g[4] == "1", "core3": len(g) > 5 and g[5] == "1"}
     return parse_obs(f[2:], N), parse_obs(s[2:], N), rs, guards
 
 
